@@ -243,17 +243,23 @@ type wireSaved struct {
 	Dead bool
 }
 
+var flateW *flate.Writer // workers are single-threaded in the BFS loop
+
 func encodeSaved(s *savedLive) []byte {
 	w := wireSaved{Hist: s.hist, Dead: s.dead}
 	if s.snap != nil {
 		w.Img, w.M = s.snap.img, s.snap.m
 	}
 	var buf bytes.Buffer
-	zw, _ := flate.NewWriter(&buf, flate.BestSpeed)
-	if err := gob.NewEncoder(zw).Encode(&w); err != nil {
+	if flateW == nil {
+		flateW, _ = flate.NewWriter(&buf, flate.BestSpeed)
+	} else {
+		flateW.Reset(&buf)
+	}
+	if err := gob.NewEncoder(flateW).Encode(&w); err != nil {
 		panic("CHECK-BROKEN: snapshot encode: " + err.Error())
 	}
-	zw.Close()
+	flateW.Close()
 	return buf.Bytes()
 }
 
